@@ -425,6 +425,7 @@ class MailExecutor(UnitsExecutor):
         self._probing = 0
         self._probe_kinds = {}
         self._append_kinds = {}
+        self._map_shapes = {}
 
     # ------------------------------------------------------------- plumbing --
     def add_vc(self, kind, label, pc, goal, note="", loc=""):
@@ -435,6 +436,7 @@ class MailExecutor(UnitsExecutor):
     def sub_executor(self, module):
         sub = super().sub_executor(module)
         sub._probing, sub._probe_kinds, sub._append_kinds = self._probing, self._probe_kinds, self._append_kinds
+        sub._map_shapes = self._map_shapes
         return sub
 
     def schema(self, cls):
@@ -474,6 +476,8 @@ class MailExecutor(UnitsExecutor):
         return super().compare(st, op, a, b, node)
 
     def contains(self, st, container, item, node):
+        if isinstance(container, VRef) and st.obj(container.ref).kind == "amap" and isinstance(item, VStr):
+            return [(st, VBool(self._smap_has(st.obj(container.ref), item)))]
         if isinstance(container, VOpt):
             st2 = self.fork_raise(st, container.none, "TypeError")
             if st2 is None:
@@ -674,10 +678,115 @@ class MailExecutor(UnitsExecutor):
 
     def symbolic_for(self, s, st, it):
         if not self._probing:
-            appends = any(isinstance(n, ast.Call) and isinstance(n.func, ast.Attribute) and n.func.attr in ("append", "extend")
-                          for b in s.body for n in ast.walk(b))
-            self._append_kinds = self.probe_kinds(s, st, it) if appends else {}
+            builds = any((isinstance(n, ast.Call) and isinstance(n.func, ast.Attribute) and n.func.attr in ("append", "extend"))
+                         or (isinstance(n, ast.Subscript) and isinstance(n.ctx, ast.Store))
+                         for b in s.body for n in ast.walk(b))
+            self._map_shapes = {}
+            self._append_kinds = self.probe_kinds(s, st, it) if builds else {}
         return super().symbolic_for(s, st, it)
+
+    # --------------------------------------------------- maps with symbolic STRING keys --
+    # (e.g. a per-call cache `d[attachment.mime_type] = extractor`).  Kept as an `amap` heap object with two more entries:
+    # `present_s` : Array(String, Bool) and `comps`: one Array(String, String) per component of the stored values when every
+    # store puts a tuple of n strings (an extractor (module, function)), else None (values unknown).  A symbolic loop havocs
+    # the map to arbitrary content: nothing is known about what an earlier iteration stored unless an invariant says so.
+    def _smap_fresh(self, shape):
+        d = {"present_s": z3.Const(fresh_name("smap.has"), z3.ArraySort(S, B)), "shape": shape, "comps": None}
+        if shape:
+            d["comps"] = [z3.Const(fresh_name(f"smap.v{i}"), z3.ArraySort(S, S)) for i in range(shape)]
+        return d
+
+    @staticmethod
+    def _shape_of(v):
+        if isinstance(v, VTuple) and v.items and all(isinstance(x, VStr) for x in v.items):
+            return len(v.items)
+        return None
+
+    def _smap_obj(self, st, base):
+        """the amap data of `base` when it is (or can become) a map with string keys, else None"""
+        if not isinstance(base, VRef):
+            return None
+        o = st.obj(base.ref)
+        if o.kind == "amap":
+            return o
+        if o.kind == "dict" and o.data is not None and not o.data:
+            return o
+        return None
+
+    def amap_havoc(self, st, ref, stored=None):
+        old = st.heap[ref]
+        had = old.data.get("shape") if old.kind == "amap" and isinstance(old.data, dict) else None
+        super().amap_havoc(st, ref, stored)
+        shape = self._map_shapes.get(ref, had)
+        o = st.heap[ref]
+        d = dict(o.data)
+        d.update(self._smap_fresh(shape))
+        st.heap[ref] = HeapObj("amap", d, None, o.fresh)
+
+    def store_index(self, st, base, idx, v, node):
+        o = self._smap_obj(st, base)
+        if o is not None and isinstance(idx, (VStr, VOpt)) and not (isinstance(idx, VStr) and idx.const() is not None and o.kind == "dict"):
+            key = self.unwrap(st, idx)
+            if not isinstance(key, VStr):
+                raise Unsupported(f"{self.loc(node)} map key may be None")
+            shape = self._shape_of(v)
+            if self._probing:
+                old = self._map_shapes.get(base.ref, shape)
+                self._map_shapes[base.ref] = shape if old == shape else None
+            if o.kind == "dict":
+                d = {"present": z3.K(I, z3.BoolVal(False)), "vkind": None, "present_s": z3.K(S, z3.BoolVal(False)), "shape": shape, "comps": None}
+                if shape:
+                    d["comps"] = [z3.K(S, EMPTY) for _ in range(shape)]
+            else:
+                d = dict(o.data)
+                if "present_s" not in d:
+                    d.update(self._smap_fresh(shape))
+            d["present_s"] = z3.Store(d["present_s"], key.t, z3.BoolVal(True))
+            if d.get("comps") is not None and shape == d.get("shape"):
+                d["comps"] = [z3.Store(a, key.t, x.t) for a, x in zip(d["comps"], v.items)]
+            else:
+                d["comps"], d["shape"] = None, None
+            self.note_store(st, base.ref, node)
+            st.heap[base.ref] = HeapObj("amap", d, None, o.fresh)
+            return [st]
+        return super().store_index(st, base, idx, v, node)
+
+    def _smap_read(self, st, o, key):
+        d = o.data
+        if d.get("comps") is not None:
+            return VTuple([VStr(z3.Select(a, key.t)) for a in d["comps"]])
+        return VUnk("map-value")
+
+    def _smap_has(self, o, key):
+        if o.kind == "dict" or "present_s" not in o.data:
+            return z3.BoolVal(False)
+        return z3.Select(o.data["present_s"], key.t)
+
+    def amap_method(self, st, obj, name, args, kwargs, node):
+        o = st.obj(obj.ref)
+        if name == "get" and args and isinstance(args[0], (VStr, VOpt)):
+            key = self.unwrap(st, args[0])
+            if not isinstance(key, VStr):
+                raise Unsupported(f"{self.loc(node)} map key may be None")
+            default = args[1] if len(args) > 1 else NONE
+            has = self._smap_has(o, key)
+            out = []
+            if self.feasible(st.pc, has):
+                s2 = st.fork().assume(has)
+                out.append((s2, self._smap_read(s2, o, key)))
+            if self.feasible(st.pc, z3.Not(has)):
+                out.append((st.assume(z3.Not(has)), default))
+            return out
+        return super().amap_method(st, obj, name, args, kwargs, node)
+
+    def amap_lookup(self, st, base, idx, node):
+        if isinstance(idx, VStr):
+            o = st.obj(base.ref)
+            st = self.fork_raise(st, z3.Not(self._smap_has(o, idx)), "KeyError")
+            if st is None:
+                return []
+            return [(st, self._smap_read(st, o, idx))]
+        return super().amap_lookup(st, base, idx, node)
 
     def dict_method(self, st, obj, mapping, name, args, kwargs, node, const):
         # TABLE.get(symbolic key) over a constant str->str table: Optional value without forking
@@ -750,6 +859,9 @@ class MailExecutor(UnitsExecutor):
 
     # ------------------------------------------------------------ dispatch (router) --
     def call(self, st, f, args, kwargs, node):
+        if isinstance(f, VUnk) and any(isinstance(a, VExt) and a.sort == "BytesIO" for a in args):
+            # an unknown callable is handed an attachment stream: recorded as a dispatch to an unknown extractor
+            f = VTuple([VStr(z3.String(fresh_name("unknown_module"))), VStr(z3.String(fresh_name("unknown_function")))])
         if isinstance(f, VTuple) and len(f.items) == 2 and all(isinstance(x, VStr) for x in f.items):
             pos = tuple((a, st.ghost.get(("pos", a.t.get_id()))) for a in args if isinstance(a, VExt) and a.sort == "BytesIO")
             st.ghost["dispatch"] = st.ghost.get("dispatch", ()) + ((f, tuple(args), pos),)
